@@ -85,6 +85,9 @@ func canonPat(p *pat) *pat {
 		return p
 	}
 	l, r := p.args[0], p.args[1]
+	if (p.name == "==" || p.name == "!=") && r.lit == `""` {
+		return &pat{op: "bin", name: p.name, args: []*pat{{op: "len", args: []*pat{l}}, {lit: "0"}}}
+	}
 	if cmpOps[p.name] {
 		if _, lc := patInt(l); lc {
 			if _, rc := patInt(r); !rc {
